@@ -307,10 +307,11 @@ class HarnessError(Exception):
     pass
 
 
-def collect_hypothesis(mod: Any, ctx: Ctx, n: int, seed_value: int, time_budget: float | None = None) -> None:
+def collect_hypothesis(mod: Any, ctx: Ctx, n: int, seed_value: int, time_budget: float | None = None, strat: Any = None) -> None:
     from hypothesis import given, seed
 
-    strat = mod.strategy(ctx.tier)
+    if strat is None:
+        strat = mod.strategy(ctx.tier)
     deadline = None if time_budget is None else time.time() + time_budget
 
     @seed(seed_value)
